@@ -48,6 +48,25 @@ def run(ctx):
         for k in range(1, w + 1):
             for t in ([2] if quick else [1, 3]):
                 vecs.append({"id": "wfail-%s-%d-t%d" % (c, k, t), "fam": "pipe", "sig": c, "cmd": c, "N": n, "T": t, "mode": "wfail", "failk": k})
+    # the same faults under every other delivery order of the records (the model's WriteFault is enabled in every
+    # interleaving; a writer that parks early arrivals has a second place - the drain loop - where a write can fail)
+    import itertools
+    gn = 3
+    orders = [list(p) for p in itertools.permutations(range(gn)) if list(p) != list(range(gn))]
+    for r in rows:
+        c = r["vec"]["cmd"]
+        if c not in pipetrace.TOPO:
+            continue
+        wg = r["obs"]["nwrites_ref"] if n == gn else None
+        if wg is None:
+            t = pipetrace.TOPO[c]
+            wg = t["HdrWrites"] + gn * t["WritesPer"]
+        for k in range(1, wg + 1):
+            for oi, order in enumerate(orders):
+                if quick and (oi + k + ctx.seed) % 2:
+                    continue
+                vecs.append({"id": "wfail-%s-%d-order%s" % (c, k, "".join(map(str, order))), "fam": "pipe", "sig": c, "cmd": c, "N": gn, "T": gn,
+                             "mode": "gate", "order": order, "failk": k})
     obs = kernel.run_vectors(ctx, "pipe", vecs, tag="wfail")
     wrows, fails, _ = kernel.validate_obs(ctx, "ObsC19", "ObsC19.cfg", obs, tag="wfail")
     fired = 0
